@@ -21,6 +21,7 @@ RULE = (
     "references == regenerate_ref_count(). Non-trivial = some node had reference count "
     ">=2 at some step, or a delete collapsed a branch (normalisation/merge paths with "
     "their own prune calls). Distinct = canonical JSON."
+    ' Added after the seeded rounds: ref_count[h] is indexed for every live and every previously seen (dead) hash; sparse-lookup mode; twin / edge-leaf fragments; a fixed deep-chain case on a pruning trie.'
 )
 LEVEL_TEXT = (
     "Exploration by model-based property testing: the database and the reported "
